@@ -4,7 +4,7 @@ import QuickAdd.Lemmas.IntervalOrdRules
 /-!
 # No production applied to values raises (C01): the productions not yet covered in `Props/C01`
 
-`TsOk`: a real reference date and clock, year 2 … 9990 (the relative rules add up to a year and a day).
+`TsOk`: a real reference date and clock, year 2 … 9500 (the relative rules add up to a year and a day).
 Every lemma is `∃ r, rule … = .ok r` under what the rule's registered predicates and the invariants of reachable productions
 (`Val.Ok`, `valCalOk`) provide.
 -/
@@ -14,7 +14,7 @@ open Gen
 structure TsOk (ts : Ts) : Prop where
   valid : ts.Valid
   lo : 2 ≤ ts.date.y
-  hi : ts.date.y ≤ 9989
+  hi : ts.date.y ≤ 9500
 
 theorem TsOk.ord {ts : Ts} (h : TsOk ts) : 1 ≤ ts.date.ord ∧ ts.date.ord + 400 ≤ maxOrd :=
   ord_bounds_of_year ts.date h.valid.1 ⟨by have := h.lo; omega, by have := h.hi; omega⟩
@@ -307,10 +307,9 @@ theorem valCalOk_interval (f g : Option Time) (h : valCalOk (.interval f g) = tr
     (∀ x, f = some x → timeCalOk x = true) ∧ (∀ x, g = some x → timeCalOk x = true) := by
   cases f <;> cases g <;> simp [valCalOk] at h <;> refine ⟨?_, ?_⟩ <;> intro x hx <;> cases hx <;> first | exact h | exact h.1 | exact h.2
 
-/-- every year written in a value is at most `n` -/
+/-- a plain time value carries no year above `n` (interval ends are not constrained: nothing adds days to them) -/
 def Val.YearLe (n : Int) : Val → Prop
   | .time t => ∀ y, t.year = some y → y ≤ n
-  | .interval f t => (∀ a y, f = some a → a.year = some y → y ≤ n) ∧ (∀ b y, t = some b → b.year = some y → y ≤ n)
   | _ => True
 
 /-- the registered name of a modelled production (inverse of `RuleId.ofName` on the table) -/
@@ -328,5 +327,23 @@ theorem ofName_nameOf (n : String) (rid : RuleId) (h : RuleId.ofName n = some ri
     have hp := List.find?_some hf
     simp only [beq_iff_eq] at hp
     rw [← h, nameOf_all e hm, hp]
+
+theorem durations_known : ∀ u ∈ durations, (DUnit.ofName u).isSome = true := by decide
+
+/-- the number-word duration reads no digits: its only failing branch (a unit name outside the six known ones) is dead -/
+theorem ruleNamedNumberDuration_total (k : Tok) : ∃ r, ruleNamedNumberDuration k = .ok r := by
+  unfold ruleNamedNumberDuration
+  simp only [bind, Except.bind, pure, Except.pure]
+  split
+  · split
+    · exact ⟨_, rfl⟩
+    · cases hf : durations.find? (fun u => k.has ("d_" ++ u)) with
+      | none => exact ⟨_, rfl⟩
+      | some u =>
+        have hk := durations_known u (List.mem_of_find?_eq_some hf)
+        obtain ⟨du, hdu⟩ := C01.some_of_isSome hk
+        simp only [hdu]
+        exact ⟨_, rfl⟩
+  · exact ⟨_, rfl⟩
 
 end QuickAdd
